@@ -240,13 +240,14 @@ def _idx(name):
 def _obs(o, n_inst):
     return {'alive': bool(o['alive']), 'inc': int(o.get('inc', 0)), 'fsm': o['fsm'],
             'master': _idx(o.get('master', '')), 'tick': int(o.get('tick', 0)),
-            'inst': [o['inst'].get(f'n{j}', 'STOPPED') for j in range(1, n_inst + 1)]}
+            'inst': [o['inst'].get(f'n{j}', 'STOPPED') for j in range(1, n_inst + 1)],
+            'rem': [int(o.get('rem', {}).get(f'n{j}', 0)) for j in range(1, n_inst + 1)]}
 
 
 def mon_trace(tid, rec, cfg, fair, ended):
     """Recorder steps -> the JSON shape ClusterMon.tla reads."""
     n = cfg.n
-    dead = {'alive': False, 'inc': 0, 'fsm': 'DEAD', 'master': 0, 'tick': 0, 'inst': ['STOPPED'] * n}
+    dead = {'alive': False, 'inc': 0, 'fsm': 'DEAD', 'master': 0, 'tick': 0, 'inst': ['STOPPED'] * n, 'rem': [0] * n}
     steps = []
     prev = [dict(dead) for _ in range(n)]
     for s in rec.steps:
@@ -474,6 +475,54 @@ def random_run(cfg, seed, steps, tail_rounds, p_delay=0.3, faults=True, inject=F
 HOLD_RULES = ('<?xml version="1.0" encoding="UTF-8" standalone="no"?><root><application name="hold">'
               '<start_sequence>1</start_sequence><programs><program name="h1"><identifiers>n2</identifiers>'
               '<start_sequence>1</start_sequence></program></programs></application></root>')
+
+
+def stealth_restart_scenarios(tier, seed, tail):
+    """A peer restarts quicker than the detection delay after having sent a ticks (a = 1..4, also a second restart in
+    a row); the observer has run for more than inactivity_ticks ticks. The first TICK of the new incarnation carries
+    a lower counter whenever a >= 2: the restart must then be noticed at the observer's next tick."""
+    from recorder import Driver
+    traces, recs = [], {}
+    k = 0
+    cfgs = [Config(n=2, sync=('TIMEOUT',)), Config(n=3, sync=('TIMEOUT',), auto_fence=True, t=3)]
+    out = []
+    for cfg in cfgs:
+        traces, recs = [], {}
+        names = [f'n{i}' for i in range(1, cfg.n + 1)]
+        for a in (1, 2, 3, 4):
+            for twice in (False, True):
+                for first in ('peer', 'observer'):
+                    c = make_cluster(cfg)
+                    d = Driver(c)
+                    try:
+                        for n in names[:-1]:
+                            d.boot(n)
+                        for _ in range(cfg.t + 3):
+                            for n in names[:-1]:
+                                d.tick(n)
+                                d.drain()
+                        peer = names[-1]
+                        d.boot(peer)
+                        for _ in range(a):
+                            d.fair_round()
+                        for _ in range(2 if twice else 1):
+                            d.crash(peer)
+                            d.boot(peer)
+                            # the new incarnation ticks before / after the observers' next tick
+                            order = [peer] + names[:-1] if first == 'peer' else names[:-1] + [peer]
+                            for n in order:
+                                d.tick(n)
+                                d.drain()
+                        for _ in range(6):
+                            d.fair_round()
+                        fair_tail(d, cfg, tail)
+                    finally:
+                        c.close()
+                    traces.append(mon_trace(k, d.rec, cfg, True, False))
+                    recs[k] = d.rec
+                    k += 1
+        out.append((cfg, traces, recs))
+    return out
 
 
 def hold_distribution_scenarios(tier, seed, tail):
